@@ -492,6 +492,11 @@ def check_case(case):
     return check_object_case(c)
 
 
+def check_isolated(case):
+    fails, why = check_case(case)
+    return {"fails": fails, "why": why}
+
+
 def run(ctx):
     if getattr(ctx, "replay", None):
         data = json.loads(open(ctx.replay).read())
@@ -513,29 +518,39 @@ def run(ctx):
     samples = []
     skipped = {}
     corpus = common.load_corpus("C12")
-    while ran < n and not ctx.violations:
-        case = corpus.pop(0) if corpus else (gen_model_case(rng) if rng.random() < 0.7 else gen_object_case(rng))
-        try:
-            fails, why = check_case(case)
-        except Exception as e:
-            ctx.notes.append(f"harness error on a case: {type(e).__name__}: {e}")
-            raise
-        if fails is None:
-            skipped[why] = skipped.get(why, 0) + 1
-            continue
-        ran += 1
-        k = case["method"] if case["kind"] == "model" else case["op"]
-        kinds[k] = kinds.get(k, 0) + 1
-        if case["kind"] == "model":
-            kinds["context_open_at_copy"] = kinds.get("context_open_at_copy", 0) + any(o["op"] == "enter" for o in case["pre_ops"])
-            for _, o in case["ops"]:
-                kk = "edit:" + (o.get("what") or o["op"])
-                kinds[kk] = kinds.get(kk, 0) + 1
-        distinct.add(json.dumps(case, sort_keys=True, default=str))
-        if len(samples) < 2:
-            samples.append(case)
-        if fails:
-            ctx.violations.append({"engine": "copy separation on the real code", "case": case, "failures": fails[:6]})
+    def cases():
+        for c in corpus:
+            yield c
+        for _ in range(n):
+            yield gen_model_case(rng) if rng.random() < 0.7 else gen_object_case(rng)
+    pool = common.IsolatedPool("c12", "check_isolated", workers=8, timeout=120)
+    try:
+        for case, res in pool.run(cases()):
+            if res == "aborted":
+                skipped["aborted-in-C-library"] = skipped.get("aborted-in-C-library", 0) + 1
+                continue
+            if "__harness_error__" in res:
+                raise RuntimeError(res["__harness_error__"] + "\n" + res.get("trace", ""))
+            fails = res["fails"]
+            if fails is None:
+                skipped[res["why"]] = skipped.get(res["why"], 0) + 1
+                continue
+            ran += 1
+            k = case["method"] if case["kind"] == "model" else case["op"]
+            kinds[k] = kinds.get(k, 0) + 1
+            if case["kind"] == "model":
+                kinds["context_open_at_copy"] = kinds.get("context_open_at_copy", 0) + any(o["op"] == "enter" for o in case["pre_ops"])
+                for _, o in case["ops"]:
+                    kk = "edit:" + (o.get("what") or o["op"])
+                    kinds[kk] = kinds.get(kk, 0) + 1
+            distinct.add(json.dumps(case, sort_keys=True, default=str))
+            if len(samples) < 2:
+                samples.append(case)
+            if fails and not ctx.violations:
+                ctx.violations.append({"engine": "copy separation on the real code", "case": case, "failures": fails[:6]})
+                break
+    finally:
+        pool.close()
     for kf in common.known_for("C12"):
         w = kf.get("witness") or {}
         hit = False
